@@ -73,7 +73,7 @@ Inductive step :=
 | SCopy (x : nat)                                    (* r = x.copy() *)
 | STsOp (f : fop) (x : nat) (o : operand)            (* r = x `f` o          TimeSeries *)
 | STsIop (f : fop) (x : nat) (o : operand)           (* x `f`= o *)
-| SCsd (x : nat) (N : option Z)                      (* periodogram_csd(x, NFFT=N), result dropped *)
+| SCsd (x : nat) (k : option nat) (N : option Z)     (* periodogram_csd(x, Sk=k, NFFT=N), result dropped *)
 | SBoxcar (x : nat)                                  (* r = boxcar_filter(x) *)
 | SFBoxcar (x : nat).                                (* r = FilterAnalyzer(x).filtered_boxcar.data *)
 
@@ -118,7 +118,13 @@ Definition run_step (env : list loc) (st : step) : M (option loc) :=
   | SCopy x => with1 x (fun l => liftl (copy_any l))
   | STsOp f x o => with2 x o (fun l v => liftl (ts_binop (fop_fn f) l v))
   | STsIop f x o => with2 x o (fun l v => lift (ts_iop (fop_fn f) l v))
-  | SCsd x N => with1 x (fun l => lift (csd l N))
+  | SCsd x k N =>
+      with1 x (fun l => match k with
+                        | None => lift (csd l None N)
+                        | Some j => match nth_error env j with
+                                    | Some lk => lift (csd l (Some lk) N)
+                                    | None => raise EOther end
+                        end)
   | SBoxcar x => with1 x (fun l => liftl (boxcar l))
   | SFBoxcar x => with1 x (fun l => liftl (filtered_boxcar l))
   end.
